@@ -343,6 +343,14 @@ class Interp:
         # pure spec functions (defined in contract / spec modules) called again with the very same
         # immutable arguments give the same value: memoised per path
         memo_key = None
+        if f.modname in self.config.get('spec_modules', ()) and not kwargs \
+                and any(isinstance(a, SymList) for a in args):
+            model = self.config.get('symlist_models', {}).get(f.qualname)
+            if model is None:
+                self.unsupported(f"spec function {f.qualname} over a list of symbolic length (no fold model)", node)
+            r = model(self, list(args))
+            if r is not NotImplemented:
+                return r
         if f.modname in self.config.get('spec_modules', ()) and not kwargs and f.closure is None \
                 and not f.is_generator:
             ks = []
@@ -669,7 +677,10 @@ class Interp:
         if inv is not None:
             from .verify import exec_for_with_invariant
             return exec_for_with_invariant(self, node, env, inv, qn, k)
-        items = self.iterate(self.eval(node.iter, env), node)
+        itv = self.eval(node.iter, env)
+        if isinstance(itv, (SymList, EnumSym)):
+            self.unsupported("loop over a list of symbolic length without an invariant", node)
+        items = self.iterate(itv, node)
         for x in items:
             self.assign(node.target, x, env)
             try:
@@ -958,6 +969,7 @@ class Interp:
         n_taken, n_idx, n_alts = len(st.taken), st.idx, len(st.alts)
         n_vcs = len(st.vcs)
         counter = st.counter
+        n_undo = len(st.undo_log)
         st.solver.push()
         st.pc.append(assumption)
         st.solver.add(assumption)
@@ -972,6 +984,8 @@ class Interp:
             return (v,)
         except (NeedFork, PyRaise, Infeasible):
             st.notes.pop('spec_memo', None)      # values computed inside may rest on dropped definitions
+            while len(st.undo_log) > n_undo:
+                st.undo_log.pop()()
             del st.taken[n_taken:]
             st.idx = n_idx
             del st.alts[n_alts:]
@@ -1281,9 +1295,8 @@ class Interp:
         if name in self.config.get('watch_attrs', ()) and isinstance(obj, SObj):
             self.st.events.append(('store', name, obj.tag, tuple(sorted(k for k, v2 in getattr(self, 'lock_depth', {}).items() if v2 > 0))))
         if isinstance(obj, SObj):
-            slots = None
-            if not hasattr(obj.cls, '__dict__') or '__dict__' not in dir(obj.cls):
-                pass
+            if obj.tag == 'symlist-element':
+                self.unsupported("store into an element of a list of symbolic length (elements are read-only views)", node)
             obj.fields[name] = v
             return
         if isinstance(obj, type):
